@@ -20,6 +20,16 @@ from .values import *
 from . import values as V
 
 
+def _sortable(k):
+    if k is None:
+        return ()
+    if isinstance(k, tuple):
+        return tuple(_sortable(x) for x in k)
+    if isinstance(k, (int, str)):
+        return (str(type(k).__name__), k if isinstance(k, int) else 0, k if isinstance(k, str) else '')
+    return (repr(k), 0, '')
+
+
 class PathEnd(Exception):
     """current path stops (panic recorded / infeasible / paused)"""
 
@@ -72,10 +82,12 @@ class Snapshot:
         self.cond = cond              # list of z3 Bool (path condition so far)
         self.next_fid = next_fid
         self.pending_call = None      # (Term) the merge-point call to execute first when resuming
+        self.models = []              # witness models of cond
 
     def clone(self):
         s = Snapshot([f.clone() for f in self.frames], dict(self.roots), list(self.cond), self.next_fid)
         s.pending_call = self.pending_call
+        s.models = list(self.models)
         return s
 
 
@@ -96,6 +108,8 @@ class Stats:
         self.functions = set()
         self.intrinsics = set()
         self.bound_hits = 0
+        self.panics_discharged = 0
+        self.model_hits = 0
 
 
 class Executor:
@@ -113,7 +127,10 @@ class Executor:
         self.intrinsics = {}
         self.static_dispatch = {}  # e.g. 'Replace::replace' -> callable / def name
         self.const_cache = {}
+        self.definitions = []     # equations naming merged conditions; must accompany every query about results
+        self._callee_cache = {}
         self.cap = 16
+        self.merge_policy = 'shape'   # 'shape': merge only states with the same concrete skeleton; 'full'
         self.merge_hook = None    # callable(executor, term, callee, args) -> bool : is this call a merge point?
         self.trace = False
         self.output_events = []   # (pathcond, where) of calls that write to stdout/stderr
@@ -132,7 +149,17 @@ class Executor:
         r = self.solver.check()
         self.solver.pop()
         self.stats.solver_checks += 1
-        self.stats.solver_time += time.time() - t0
+        dt = time.time() - t0
+        self.stats.solver_time += dt
+        if self.trace:
+            self._checklog = getattr(self, '_checklog', {})
+            k = (self.where() if getattr(self, 'frames', None) else 'batch', str(r))
+            a = self._checklog.setdefault(k, [0, 0.0])
+            a[0] += 1
+            a[1] += dt
+        if False:
+            import sys
+            print('SLOW check %.2fs %s at %s: %s' % (dt, r, self.where(), str(extra)[:300]), file=sys.stderr, flush=True)
         return r
 
     def feasible(self, cond):
@@ -143,25 +170,86 @@ class Executor:
         return r != z3.unsat
 
     def choose(self, conds, labels=None):
-        """Pick one of the alternatives whose condition is feasible; schedules the others."""
+        """Pick one of the alternatives whose condition is feasible; schedules the others.
+        The solver keeps one scope per decision; scopes of a shared prefix are reused between paths.
+        Witness models of the current path condition answer most feasibility questions without the solver."""
         k = self._dec_idx
         self._dec_idx += 1
         if k < len(self._prefix):
             choice = self._prefix[k]
         else:
-            feas = [i for i, c in enumerate(conds) if self.feasible(c)]
+            feas = []
+            wit = {}
+            for i, c in enumerate(conds):
+                cb = concrete_bool(c)
+                if cb is False:
+                    continue
+                if cb is True:
+                    feas.append(i)
+                    wit[i] = list(self._models)
+                    continue
+                ms = [m for m in self._models if z3.is_true(m.eval(c, model_completion=True))]
+                if ms:
+                    self.stats.model_hits += 1
+                    feas.append(i)
+                    wit[i] = ms
+                    continue
+                self._sync_solver()
+                r, m = self._check_model(c)
+                if r == z3.unsat:
+                    continue
+                feas.append(i)
+                wit[i] = [m] if m is not None else []
             if not feas:
                 raise PathEnd('infeasible')
             choice = feas[0]
-            for alt in feas[1:]:
-                self._worklist.append(self._prefix[:k] + [alt])
+            for alt in reversed(feas[1:]):
+                self._worklist.append((self._prefix[:k] + [alt], wit[alt][:3]))
             self._prefix.append(choice)
+            self._models = wit[choice][:4]
         c = conds[choice]
-        cb = concrete_bool(c)
-        if cb is None:
-            self.pathcond.append(c)
-            self.solver.add(c)
+        self.pathcond.append(c)
+        self._dec_conds.append(c)
         return choice
+
+    def _check_model(self, extra):
+        t0 = time.time()
+        self.solver.push()
+        self.solver.add(extra)
+        r = self.solver.check()
+        m = self.solver.model() if r == z3.sat else None
+        self.solver.pop()
+        self.stats.solver_checks += 1
+        dt = time.time() - t0
+        self.stats.solver_time += dt
+        if self.trace:
+            self._checklog = getattr(self, '_checklog', {})
+            k = (self.where() if getattr(self, 'frames', None) else 'batch', str(r))
+            a = self._checklog.setdefault(k, [0, 0.0])
+            a[0] += 1
+            a[1] += dt
+        return r, m
+
+    def _sync_solver(self):
+        """make the solver's scopes reflect the decisions taken so far on this path"""
+        have = self._solver_decs          # list of (choice) currently pushed
+        want = self._prefix[:len(self._dec_conds)]
+        n = 0
+        while n < len(have) and n < len(want) and have[n] == want[n]:
+            n += 1
+        # scopes beyond the common prefix belong to another path
+        while len(have) > n:
+            self.solver.pop()
+            have.pop()
+        while len(have) < len(want):
+            i = len(have)
+            self.solver.push()
+            c = self._dec_conds[i]
+            if not isinstance(c, bool):
+                self.solver.add(c)
+            elif c is False:
+                self.solver.add(z3.BoolVal(False))
+            have.append(want[i])
 
     def branch(self, cond):
         """symbolic boolean -> Python bool, forking if both outcomes are feasible"""
@@ -196,14 +284,43 @@ class Executor:
         raise PathEnd('panic')
 
     def panic_if(self, cond, kind, msg=''):
-        """record a panic if cond can hold; continue on the path where it does not"""
+        """A panic that happens iff cond.  If cond is not syntactically decided the panic is recorded as *potential*
+        (decided in batch at the end of the segment by the solver) and execution continues under Not(cond)."""
         cb = concrete_bool(cond)
         if cb is False:
             return
         if cb is True:
             self.panic(kind, msg)
-        if self.choose([z3.Not(cond), cond]) == 1:
-            self.panic(kind, msg)
+        self._potential.append(PanicRecord(list(self.pathcond) + [cond], kind, msg, self.where()))
+        self.assume_on_path(z3.Not(cond))
+
+    def assume_on_path(self, cond):
+        """extend the path condition without a feasibility check (a decision with a single alternative)"""
+        k = self._dec_idx
+        self._dec_idx += 1
+        if k >= len(self._prefix):
+            self._prefix.append(0)
+        self.pathcond.append(cond)
+        self._dec_conds.append(cond)
+        if k >= len(self._prefix) - 1:
+            self._models = [m for m in self._models if z3.is_true(m.eval(cond, model_completion=True))]
+
+    def discharge_potential(self):
+        """decide the potential panics of the finished segment: one query for all, then individually if needed"""
+        pots, self._potential = self._potential, []
+        if not pots:
+            return
+        conds = [And(*p.cond) for p in pots]
+        r = self._check(Or(*conds))
+        if r == z3.unsat:
+            self.stats.panics_discharged += len(pots)
+            return
+        for p, c in zip(pots, conds):
+            r = self._check(c)
+            if r == z3.unsat:
+                self.stats.panics_discharged += 1
+            else:
+                self.panics.append(p)
 
     def bound_exceeded(self, what):
         """the path leaves the stated bounds (capacity etc.): it is cut and reported as outside the claim"""
@@ -217,8 +334,20 @@ class Executor:
             return
         if cb is True:
             self.bound_exceeded(what)
-        if self.choose([z3.Not(cond), cond]) == 1:
-            self.bound_exceeded(what)
+        self._potential_bounds.append((list(self.pathcond) + [cond], what, self.where()))
+        self.assume_on_path(z3.Not(cond))
+
+    def discharge_bounds(self):
+        pots, self._potential_bounds = self._potential_bounds, []
+        if not pots:
+            return
+        conds = [And(*p[0]) for p in pots]
+        if self._check(Or(*conds)) == z3.unsat:
+            return
+        for p, c in zip(pots, conds):
+            if self._check(c) != z3.unsat:
+                self.stats.bound_hits += 1
+                self.bound_conds.append(p)
 
     def where(self):
         out = []
@@ -842,25 +971,28 @@ class Executor:
 
     def lookup_callee(self, path, args):
         """-> Function (MIR) or python callable(executor, args)"""
-        key = path
         recv = self.type_name_of(args[0]) if args else None
-        name = None
+        ck = (path, recv)
+        hit = self._callee_cache.get(ck)
+        if hit is not None:
+            if not isinstance(hit, Function):
+                self.stats.intrinsics.add(hit[1])
+                return hit[0]
+            return hit
         sd = self._static_dispatch_for(path)
         if sd is not None:
             return sd
-        try:
-            name = self.res.resolve_path(path, recv)
-        except MirUnsupported:
-            raise
+        name = self.res.resolve_path(path, recv)
         if name is not None:
-            fn = self.mir.functions[name]
-            return fn[-1]
+            fn = self.mir.functions[name][-1]
+            self._callee_cache[ck] = fn
+            return fn
         ik = self.intrinsic_key(path)
         f = self.intrinsics.get(ik)
         if f is None:
-            # value-directed intrinsics: method on python-modelled object
             raise Unsupported('no model for external function %s (key %s)' % (path, ik))
         self.stats.intrinsics.add(ik)
+        self._callee_cache[ck] = (f, ik)
         return f
 
     def _static_dispatch_for(self, path):
@@ -922,7 +1054,10 @@ class Executor:
                     v = self.concretize(v)
                 fr.block, fr.idx = self.switch_target(fr, t, v), 0
             elif k == 'return':
-                ret = fr.locals.get('_0', UNIT)
+                ret = fr.locals.get('_0', UNINIT)
+                if ret is UNINIT:
+                    rt = fr.fn.ret.strip()
+                    ret = UNIT if rt in ('()', '!') else Struct(norm_type(rt), ())
                 frames.pop()
                 if len(frames) == base_depth:
                     return ret
@@ -1018,50 +1153,117 @@ class Executor:
         return self.explore_from(snap)
 
     def explore_from(self, snap):
+        """explore all paths from snap; paused paths are grouped by (program point, iterator position) and the
+        group that is least advanced is merged and resumed first, so every group is explored once."""
         finished = []
-        pending = [snap]
-        while pending:
-            s = pending.pop(0)
-            fin, paused = self.explore_segment(s)
+        pending = {}          # key -> list of snapshots
+        order = {}            # key -> sortable
+        fin, paused = self.explore_segment(snap)
+        finished.extend(fin)
+        while True:
+            for p in paused:
+                k = self.snapshot_key(p)
+                pending.setdefault(k, []).append(p)
+            if not pending:
+                break
+            key = min(pending, key=lambda k: (repr(k[1]) if k[1] is None else '', _sortable(k[1]), len(k[0])))
+            group = pending.pop(key)
+            if self.trace:
+                import sys
+                print('segment', key[1], 'merging', len(group), 'pending groups', len(pending), 'paths', self.stats.paths,
+                      'checks', self.stats.solver_checks, round(self.stats.solver_time, 1), file=sys.stderr, flush=True)
+            fin, paused = self.explore_segment(self.merge_snapshots(group))
             finished.extend(fin)
-            if paused:
-                groups = {}
-                for p in paused:
-                    groups.setdefault(self.snapshot_key(p), []).append(p)
-                for key, ps in groups.items():
-                    pending.append(self.merge_snapshots(ps))
         return finished
 
     def explore_segment(self, start: Snapshot):
         finished, paused = [], []
-        self._worklist = [[]]
-        while self._worklist:
-            prefix = self._worklist.pop()
-            s = start.clone()
-            self.frames = s.frames
-            self.roots = s.roots
-            self.pathcond = list(s.cond)
-            self.next_fid = s.next_fid
-            self._prefix = prefix
-            self._dec_idx = 0
-            self._paused = None
-            self._resuming = s.pending_call is not None
-            self.nesting = 0
-            self.stats.paths += 1
-            self.solver.push()
-            try:
-                for c in self.pathcond:
-                    self.solver.add(c)
+        self._worklist = [([], list(start.models))]
+        self._solver_decs = []
+        self._potential = []
+        self._potential_bounds = []
+        self.solver.push()
+        for c in start.cond:
+            if not isinstance(c, bool):
+                self.solver.add(c)
+        try:
+            while self._worklist:
+                prefix, models = self._worklist.pop()
+                self._models = list(models)
+                s = start.clone()
+                self.frames = s.frames
+                self.roots = s.roots
+                self.pathcond = list(s.cond)
+                self.next_fid = s.next_fid
+                self._prefix = prefix
+                self._dec_idx = 0
+                self._dec_conds = []
+                self._paused = None
+                self._resuming = s.pending_call is not None
+                self.nesting = 0
+                self.stats.paths += 1
                 try:
                     ret = self.run_loop(0)
                     finished.append(PathResult(list(self.pathcond), ret, dict(self.roots)))
                 except Paused:
+                    self._paused.models = list(self._models)
+                    self.drop_dead_locals(self._paused)
                     paused.append(self._paused)
                 except PathEnd:
                     pass
-            finally:
+        finally:
+            while self._solver_decs:
                 self.solver.pop()
+                self._solver_decs.pop()
+            self.solver.pop()
+        self.panics.extend(self._potential)
+        self.bound_conds.extend(self._potential_bounds)
+        self._potential, self._potential_bounds = [], []
         return finished, paused
+
+    def drop_dead_locals(self, snap: Snapshot):
+        from .liveness import liveness
+        n = len(snap.frames)
+        for i, f in enumerate(snap.frames):
+            lv = liveness(f.fn)
+            live = lv.live_at_terminator(f.block) if i == n - 1 else lv.live_after_call(f.block)
+            for name in list(f.locals):
+                if name not in live:
+                    del f.locals[name]
+
+    def shape_of(self, v, depth=0):
+        """the concrete skeleton of a value: states are merged only if their skeletons agree"""
+        if isinstance(v, bool):
+            return v
+        if isinstance(v, (int, float, str)) or is_sym(v) or v is None or v is UNINIT:
+            return None
+        if isinstance(v, tuple):
+            return tuple(self.shape_of(x, depth + 1) for x in v)
+        if isinstance(v, Struct):
+            return (v.ty,) + tuple(self.shape_of(x, depth + 1) for x in v.fields)
+        if isinstance(v, Enum):
+            d = concrete_int(v.disc) if not is_sym(v.disc) else None
+            if d is None:
+                return (v.ty, '*')
+            p = v.payload(d)
+            return (v.ty, d) + (tuple(self.shape_of(x, depth + 1) for x in p) if p else ())
+        if isinstance(v, Seq):
+            ln = v.len if not is_sym(v.len) else '*'
+            scalar = all(isinstance(e, int) or is_sym(e) or e is UNINIT for e in v.elems)
+            if scalar:
+                return ('seq', ln)
+            return ('seq', ln) + tuple(self.shape_of(e, depth + 1) for e in v.elems)
+        if isinstance(v, SymStr):
+            return ('symstr', v.seq.len if not is_sym(v.seq.len) else '*')
+        if isinstance(v, Choice):
+            return ('choice',)
+        if isinstance(v, (Ref, MutSlice)):
+            return None
+        if hasattr(v, 'shape'):
+            return v.shape(self)
+        if hasattr(v, '__dataclass_fields__'):
+            return (type(v).__name__,) + tuple(self.shape_of(getattr(v, f), depth + 1) for f in v.__dataclass_fields__)
+        return None
 
     def snapshot_key(self, s: Snapshot):
         key = []
@@ -1079,7 +1281,16 @@ class Executor:
                 it = getattr(a0, 'merge_key', lambda: None)()
             finally:
                 self.frames, self.roots = saved
-        return (tuple(key), it)
+        shape = None
+        if self.merge_policy == 'shape':
+            sh = []
+            for f in s.frames:
+                for name in sorted(f.locals):
+                    sh.append(self.shape_of(f.locals[name]))
+            for name in sorted(s.roots):
+                sh.append(self.shape_of(s.roots[name]))
+            shape = repr(sh)
+        return (tuple(key), it, shape)
 
     def merge_snapshots(self, snaps):
         if len(snaps) == 1:
@@ -1102,6 +1313,39 @@ class Executor:
         roots = {}
         for n in base.roots:
             roots[n] = merge_many([(c, s.roots[n]) for c, s in zip(conds, snaps)])
-        m = Snapshot(frames, roots, [Or(*conds)], max(s.next_fid for s in snaps))
+        g = Or(*conds)
+        m = Snapshot(frames, roots, [g], max(s.next_fid for s in snaps))
         m.pending_call = base.pending_call
+        step = max(1, len(snaps) // 12)
+        for s in snaps[::step]:
+            m.models.extend(s.models[:1])
         return m
+
+    def feasible_panics(self, extra=()):
+        """decide the recorded (potential) panics: -> list of records whose condition is satisfiable"""
+        if not self.panics:
+            return []
+        self.solver.push()
+        for e in extra:
+            self.solver.add(e)
+        try:
+            conds = [And(*p.cond) for p in self.panics]
+            if self._check(Or(*conds)) == z3.unsat:
+                self.stats.panics_discharged += len(conds)
+                return []
+            out = []
+            for p, c in zip(self.panics, conds):
+                if self._check(c) != z3.unsat:
+                    out.append(p)
+            return out
+        finally:
+            self.solver.pop()
+
+    def _fresh(self):
+        self._fresh_n = getattr(self, '_fresh_n', 0) + 1
+        return self._fresh_n
+
+    def define(self, eq):
+        """a definition of a fresh name: part of every later query (self.definitions)"""
+        self.definitions.append(eq)
+        self.solver.add(eq)
